@@ -109,6 +109,17 @@ def one_block(chk, rng, kind, idx):
             hit = next(((s, k) for (l, s, k) in content if l == lab and content[(l, s, k)] == mitems[j][1]), None)
             if hit is not None:
                 item_keys.append((mitems[j], api.make_item(kind, lab, hit[1], hit[0]), "equal copy"))
+            # near misses of a present item: the same label with other numbers, the same numbers under another label —
+            # neither is "in" the block (an item is its label AND its data)
+            if hit is not None and hit[1] > 0:
+                twin = api.make_item(kind, lab, hit[1], hit[0] + 11)
+                same = api.make_item(kind, lab, hit[1], hit[0])
+                held = [api.encoded_item(kind, x) for x, l in zip(items, labels) if l == lab]
+                if api.encoded_item(kind, twin) not in held:
+                    item_keys.append(([0, 9100 + j, cps(lab), mitems[j][3]], twin, "same label, other data"))
+                same.label = lab + "'" if len(lab) < 200 else "other"
+                if same.label not in labels:
+                    item_keys.append(([0, 9200 + j, cps(same.label), mitems[j][3]], same, "same data, other label"))
         item_keys.append(([0, 999, cps("nobody"), nfr], api.make_item(kind, "nobody", nfr, 7), "absent"))
         other_kind = "EV" if kind != "EV" else "EM"
         foreign = api.make_item(other_kind, "c7", nfr)
